@@ -214,3 +214,19 @@ def platform_history(spec):
 def probe_hash_order(spec):
     """Probe: the iteration order of a set of the given strings in this interpreter."""
     return {"order": list(set(spec["names"])), "hashseed": os.environ.get("PYTHONHASHSEED")}
+
+
+def membership(spec):
+    """spec: {top, root, cwd, excludes, paths:[str]} -> {"in": [bool...]} (path in CodeBase)."""
+    warnings.simplefilter("ignore")
+    os.chdir(spec["cwd"])
+    from codebasin import CodeBase
+
+    cb = CodeBase(spec["root"], exclude_patterns=list(spec.get("excludes", [])))
+    out = []
+    for p in spec["paths"]:
+        try:
+            out.append(bool(p in cb))
+        except Exception as e:  # noqa
+            out.append(f"{type(e).__name__}")
+    return {"in": out}
